@@ -261,6 +261,145 @@ def derive_spec(rng, prev, maxprod):
     return rand_spec(rng, maxprod)
 
 
+# ---------------------------------------------------------------------------------------------
+# confusable values: families of pairwise DISTINCT integers / identifier-like strings that only differ by
+# what a normalisation, a loose comparison or a pattern match would ignore (letter case, leading / trailing /
+# inner underscores, trailing digits and leading zeros of the digit suffix, one value a prefix / suffix /
+# infix of the other, one character of a long identifier, words that read as Python / JSON constants, letters
+# outside ASCII with their case / compatibility twins, sign, factor 10, repeated / reversed digits, neighbours
+# of 2**31 / 2**32 / 2**53 / 2**63 / 10**18 / 10**30, an integer next to identifiers that carry its digits).
+# Every string is an identifier ([A-Za-z_][A-Za-z0-9_]* or str.isidentifier()): no regex metacharacter, no
+# digit-only text, no white space - the property's quantifier.
+
+CONF_BASES = ["gr4j", "nse", "kge", "model", "q", "p", "a", "x", "site", "mm", "obs", "sim", "ab", "log", "id",
+              "GR4J", "Sac", "awbm", "nse_log", "obj_fun", "x1", "v2", "month", "qTot", "kgeX"]
+CONF_RESERVED = ["None", "none", "NONE", "True", "true", "TRUE", "False", "false", "nan", "NaN", "NAN", "inf",
+                 "Inf", "INF", "null", "Null", "int", "Int", "str", "e", "E", "l", "I", "O", "o", "_", "__", "_0",
+                 "_1", "e1", "E1", "x0", "X0", "j", "J", "and", "AND", "or", "Or", "s", "S", "w", "W", "d", "D",
+                 "b", "B", "Z", "z", "A", "a"]
+CONF_UNICODE = [["é", "É", "e", "E", "eé"], ["ß", "ss", "SS", "s", "ẞ"],
+                ["µ", "μ", "Μ", "M", "u"], ["ñ", "Ñ", "n", "N", "nn"],
+                ["äx", "Äx", "ax", "äX", "xä"], ["ı", "i", "I", "İx", "ix"],
+                ["ſ", "s", "S", "ſs", "ss"], ["ﬁ", "fi", "FI", "f", "Fi"]]
+CONF_BIG = [2 ** 31 - 1, 2 ** 31, 2 ** 32, 2 ** 53, 2 ** 63 - 1, 2 ** 63, 2 ** 64, 10 ** 15, 10 ** 18, 10 ** 30]
+STR_KINDS = ["case", "case", "underscore", "digits", "affix", "long", "reserved", "unicode"]
+INT_KINDS = ["sign", "sign", "digits_int", "big"]
+LETTERS = "abcdefghijklmnopqrstuvwxyzABCDEFGHIJKLMNOPQRSTUVWXYZ"
+
+
+def is_ident(s):
+    return isinstance(s, str) and s.isidentifier() and s != "self"
+
+
+def rand_case(rng, s):
+    return "".join(c.upper() if rng.random() < 0.5 else c.lower() for c in s)
+
+
+def conf_pool(rng, kind, maxlen=80):
+    """every member of one family (distinct values), in a random order"""
+    if kind == "case":
+        b = rng.choice(CONF_BASES + IDENTS)
+        pool = [b, b.lower(), b.upper(), b.capitalize(), b.swapcase(), b.title(), rand_case(rng, b),
+                rand_case(rng, b), b[0].swapcase() + b[1:], b[:-1] + b[-1].swapcase()]
+    elif kind == "underscore":
+        b = rng.choice(CONF_BASES + IDENTS)
+        i = rng.randint(1, len(b)) if len(b) > 1 else 1
+        pool = [b, "_" + b, b + "_", "__" + b, b + "__", "_" + b + "_", b[:i] + "_" + b[i:],
+                b[:i] + "__" + b[i:], b.replace("_", ""), b.replace("_", "__")]
+    elif kind == "digits":
+        b = rng.choice(CONF_BASES + IDENTS).rstrip("0123456789") or "x"
+        d = str(rng.randint(1, 9))
+        pool = [b, b + d, b + "0" + d, b + "00" + d, b + d + "0", b + d + d, b + "0", b + d + "_", b + "_" + d,
+                b + d + "1", b + "1" + d, "_" + d, b + d * 3]
+    elif kind == "affix":
+        b, t = rng.sample(CONF_BASES + IDENTS, 2)
+        pool = [b, b + t, t + b, b + b, t + b + t, b + "_" + t, b[:-1], b[1:], b + b[-1], b[0] + b, b + b + b,
+                b[::-1], t]
+    elif kind == "long":
+        n = rng.randint(24, maxlen)
+        s = rng.choice(LETTERS + "_") + "".join(rng.choice(LETTERS + "_0123456789") for _ in range(n - 1))
+        m = rng.randint(1, n - 2)
+
+        def other(c):
+            return rng.choice([x for x in LETTERS if x.lower() != c.lower()])
+        pool = [s, other(s[0]) + s[1:], s[:m] + other(s[m]) + s[m + 1:], s[:-1] + other(s[-1]), s[:-1], s + "x",
+                s[1:], s[:m] + s[m + 1] + s[m] + s[m + 2:], s[:m] + s[m + 1:], s[:m] + s[m] + s[m:], s.swapcase()]
+    elif kind == "reserved":
+        pool = rng.sample(CONF_RESERVED, 12)
+    elif kind == "unicode":
+        pool = list(rng.choice(CONF_UNICODE))
+    elif kind == "sign":
+        z = rng.randint(1, 120)
+        pool = [z, -z, 10 * z, -10 * z, 10 * z + 1, 100 * z, z + 1, z - 1, 0, -z - 1, 1 - z]
+    elif kind == "digits_int":
+        z = rng.randint(1, 120)
+        s = str(z)
+        pool = [z, int(s[::-1]), int(s * 2), int(s + s[-1]), int(s[0] + s), int(s + "0"), int("1" + s), int(s + "1"),
+                int(s[0] + "0" + s[1:]), -int(s * 2), z % 10, z // 10]
+    elif kind == "big":
+        a = rng.choice(CONF_BIG)
+        pool = [a, a - 1, a + 1, -a, -a - 1, -a + 1, a + 2, 10 * a, a // 10, a + 10, 2 * a]
+    elif kind == "mixed":
+        z = rng.randint(0, 120)
+        p = rng.choice(["x", "v", "e", "_", "a", "month", "X", "E"])
+        pool = [z, -z, 10 * z, z + 1, f"{p}{z}", f"_{z}", f"{p}{z}_", f"{p}_{z}", f"{p}0{z}", f"{p}{z}0", p,
+                f"{p.swapcase()}{z}", f"{p}{z + 1}"]
+    else:
+        raise KeyError(kind)
+    out = []
+    for v in pool:
+        if (isinstance(v, int) or is_ident(v)) and not any(type(v) is type(w) and v == w for w in out):
+            out.append(v)
+    rng.shuffle(out)
+    return out
+
+
+def conf_family(rng, kinds, nmax=5, maxlen=80):
+    """(kind, chosen values (>= 2 when the family has them), other members of the family)"""
+    kind = rng.choice(kinds)
+    pool = conf_pool(rng, kind, maxlen)
+    n = min(len(pool), rng.randint(2, nmax))
+    return kind, pool[:n], pool[n:]
+
+
+def conf_spec(rng, maxprod, maxlen=80):
+    """option dictionary with at least one option whose values are a family of confusable values;
+    returns (spec, near: option -> members of the family that are NOT values of the option, kinds)"""
+    while True:
+        nopt = rng.randint(1, 4)
+        if rng.random() < 0.3:       # the names of the options are confusable as well
+            keys = [k for k in conf_pool(rng, rng.choice(["case", "underscore", "digits", "affix"])) if k][:nopt]
+        else:
+            keys = rng.sample(IDENTS, nopt)
+        spec, near, kinds = {}, {}, []
+        nfam = 0
+        for j, k in enumerate(keys):
+            q = rng.random()
+            if q < 0.6 or (j == len(keys) - 1 and nfam == 0):
+                which = rng.random()
+                kind, vals, rest = conf_family(rng, STR_KINDS if which < 0.55 else INT_KINDS if which < 0.8
+                                               else ["mixed"], maxlen=maxlen)
+                if rng.random() < 0.08:
+                    vals, rest = vals[0], vals[1:] + rest            # one member given bare
+                spec[k], near[k] = vals, rest
+                kinds.append(kind)
+                nfam += 1
+            elif q < 0.7:
+                spec[k] = rng.choice([rng.choice(INTS), rng.choice(IDENTS)])
+            else:
+                spec[k] = rng.sample(rng.choice([INTS, IDENTS]), rng.randint(1, 5))
+        n = 1
+        for v in spec.values():
+            n *= len(v) if isinstance(v, list) else 1
+        if n <= maxprod:
+            return spec, near, tuple(sorted(kinds))
+
+
+def same_value(a, b):
+    """the two option values are equal (an integer is never equal to a text)"""
+    return type(a) is type(b) and a == b
+
+
 def run(ctx):
     ctx.rule = ("get_batch: every (n,k,i) with n<=N, k in 0..n+1, i in -1..k (exhaustive), plus random n up "
                 "to 1e6; SiteBatch.search on random duplicate-free site lists; option managers with 1-4 "
@@ -270,7 +409,14 @@ def run(ctx):
                 "from_cartesian_product called again on the same manager, key names set / reset between to_dict "
                 "and from_dict) and for the stored representations of the same values (Python / numpy integer "
                 "scalars, lists, tuples, ranges, numpy arrays of several dtypes / strides / byte orders / read-only, "
-                "pandas Index / Series, dict keys; text site ids); non-trivial = distinct (kind, shape) signature")
+                "pandas Index / Series, dict keys; text site ids); CONFUSABLE values: option values / option names / site ids "
+                "drawn from families of distinct integers and identifier strings that differ only by letter case, "
+                "leading / trailing / inner underscores, digit suffixes and their leading zeros, prefix / suffix / "
+                "infix, one character of a 24-80 (thorough: 400) character identifier, words reading as Python / JSON "
+                "constants, non-ASCII letters with their case / compatibility twins, sign, factor 10, repeated / "
+                "reversed digits, neighbours of 2**31 .. 10**30, an integer beside identifiers carrying its digits "
+                "(mixed integer / text lists) - find asked for every value of every option, for the family members "
+                "that are not values, and for two options at once; non-trivial = distinct (kind, shape) signature")
     ctx.trusted = cm.STD_TRUST + [
         "numpy.array_split sizes n//k+[i<n%k] and re.search on metacharacter-free strings are assumptions of the model, validated by the correspondence"]
     ctx.tested_not_proved = ["json.dump/json.load round trip (library)", "__str__/log glue"]
@@ -429,6 +575,201 @@ def run(ctx):
                   dict(rep, call="from_dict(to_dict())", eq_ab=ab, eq_ba=ba), ("round", kn["context_name"]))
         if not (ab and ba and same_tasks):
             fail(idx, "C19/roundtrip/not-equal", "manager differs after to_dict/from_dict")
+
+    # ---- option managers whose values (and option names) are CONFUSABLE: distinct values that a loose
+    #      comparison / normalisation / pattern match would take for one another.  find is asked for every
+    #      value of every option, for members of the same family that are not values of the option, and for
+    #      two options at once; enumeration, get_task, to_dict and the round trip are checked on the same grids
+    maxlen = ctx.scale(80, 400)
+
+    def spec_term(spec):
+        return "[" + "; ".join(
+            f"({cm.coq_string(k)}, " + (f"OIter {cvlist(v)}" if isinstance(v, list) else f"OBare {cv(v)}") + ")"
+            for k, v in spec.items()) + "]"
+
+    def confusable_manager(spec, near, kinds):
+        context = rand_context(rng)
+        if rng.random() < 0.3 and context:      # a context entry named like an option / holding one of its values
+            k0 = rng.choice(list(spec))
+            v0 = spec[k0][0] if isinstance(spec[k0], list) else spec[k0]
+            context[rng.choice(list(context))] = v0
+            if rng.random() < 0.5:
+                context[k0] = v0
+        kn = rng.choice(KEYNAMES)
+        opm = hyruns.OptionManager("mgr" if rng.random() < 0.5 else "Task Manager", **copy.deepcopy(context))
+        rep = {"call": "OptionManager.from_cartesian_product", "spec": spec, "families": list(kinds),
+               "context": context, "keynames": kn}
+        try:
+            opm.from_cartesian_product(**copy.deepcopy(spec))
+            options = {str(k): [pyval(x) for x in v] for k, v in opm.options.items()}
+            tasks = [{str(k): pyval(x) for k, x in t.items()} for t in opm.tasks]
+        except Exception as e:  # noqa
+            idx = add(f"HProduct {spec_term(spec)} [] [[(\"raised\", VInt 0%Z)]]",
+                      dict(rep, raised=f"{type(e).__name__}: {e}"[:200]), ("conf-product", "raised"))
+            fail(idx, "C19/product/enumeration",
+                 f"from_cartesian_product raised / stored no option values ({type(e).__name__})")
+            return
+        idx = add(f"HProduct {spec_term(spec)} {cdict(options, cvlist)} [{'; '.join(cdict(t, cv) for t in tasks)}]",
+                  dict(rep, impl_tasks=tasks[:6], impl_ntasks=len(tasks)),
+                  ("conf-product", kinds, len(spec), len(tasks) > 1))
+        lists = [v if isinstance(v, list) else [v] for v in spec.values()]
+        want = [[]]
+        for l in lists:
+            want = [w + [x] for w in want for x in l]
+        if any(list(t.keys()) != list(spec.keys()) for t in tasks) or \
+                sorted(repr(tuple(t[k] for k in spec)) for t in tasks) != sorted(repr(tuple(w)) for w in want):
+            fail(idx, "C19/product/enumeration",
+                 f"tasks are not every combination exactly once (confusable values {kinds}: {len(tasks)} tasks, "
+                 f"{len(want)} combinations)")
+            return
+        try:
+            same = [dict(opm.get_task(i).options) for i in range(opm.ntasks)] == [dict(t) for t in opm.tasks]
+        except Exception:  # noqa
+            same = False
+        if not same:
+            fail(idx, "C19/get_task", "get_task(i).options differs from tasks[i]")
+
+        def ask(kw):
+            try:
+                return [int(i) for i in opm.find(**kw)], None
+            except Exception as e:  # noqa
+                return None, f"{type(e).__name__}: {e}"[:200]
+
+        # find, one option: every value, the members of the family that are not values, an unrelated value
+        for key, vals in zip(spec, lists):
+            absent = list(near.get(key, []))[:3] + [rng.choice([99, "zzz", "mon", 1, "x"])]
+            for j, v in enumerate(list(vals) + absent):
+                found, err = ask({key: v})
+                expect = [i for i, t in enumerate(tasks) if same_value(t[key], v)]
+                idx = add(f"HFind {cdict(options, cvlist)} {cm.coq_string(key)} {cv(v)} "
+                          f"{cm.coq_zlist(found if found is not None else [-1])}",
+                          dict(rep, call="find", key=key, value=v, impl=found, expected=expect, raised=err),
+                          ("conf-find", kinds, bool(found), j < len(vals), type(v).__name__))
+                if found != expect:
+                    others = sorted({repr(tasks[i][key]) for i in (found or []) if i not in expect})
+                    fail(idx, "C19/find/wrong-tasks",
+                         f"find({key}={v!r}) -> {found}, the tasks whose option {key} equals {v!r} are {expect}"
+                         + (f" (tasks with {key} in {others} returned as well)" if others else ""))
+        # find, two options at once: the tasks whose two options equal the two requested values
+        if len(spec) >= 2:
+            for _q in range(min(4, len(tasks))):
+                k1, k2 = rng.sample(list(spec), 2)
+                t0 = rng.choice(tasks)
+                v1 = t0[k1]
+                v2 = t0[k2] if rng.random() < 0.8 or not near.get(k2) else rng.choice(near[k2])
+                found, err = ask({k1: v1, k2: v2})
+                expect = [i for i, t in enumerate(tasks) if same_value(t[k1], v1) and same_value(t[k2], v2)]
+                ctx.count(("conf-find2", kinds, bool(found)))
+                if found != expect:
+                    ctx.failure("C19/find/wrong-tasks",
+                                dict(rep, call="find with two options", request={k1: v1, k2: v2}, impl=found,
+                                     expected=expect, raised=err),
+                                f"find({k1}={v1!r}, {k2}={v2!r}) -> {found}, the tasks whose options equal the "
+                                f"requested values are {expect}")
+        # to_dict / from_dict under the key names
+        try:
+            dd = with_keynames(hyruns, kn, opm.to_dict)
+            fields = "[" + "; ".join(f"({cm.coq_string(k)}, {mfield_term(k, v2, kn)})"
+                                     for k, v2 in dd.items()) + "]"
+        except Exception as e:  # noqa
+            dd, fields = None, "[]"
+        man = cmanager(opm.name, context, options, tasks)
+        add(f"HDict {ckn(kn)} {man} {fields}", dict(rep, call="to_dict", impl=str(dd)[:400]),
+            ("conf-dict", kn["context_name"], len(context) > 0))
+        as_json = rng.random() < 0.6
+
+        def rt():
+            d2 = json.loads(json.dumps(opm.to_dict())) if as_json else opm.to_dict()
+            return hyruns.OptionManager.from_dict(d2)
+        try:
+            opm2 = with_keynames(hyruns, kn, rt)
+            ab, ba = bool(opm == opm2), bool(opm2 == opm)
+            t2 = [dict(t) for t in opm2.tasks]
+            same_tasks = len(t2) == len(tasks) and opm2.name == opm.name and dict(opm2.context) == context and \
+                all(list(a) == list(b) and all(same_value(a[k], b[k]) for k in a) for a, b in zip(t2, tasks))
+            err = None
+        except Exception as e:  # noqa
+            ab = ba = same_tasks = False
+            err = f"{type(e).__name__}: {e}"[:200]
+        idx = add(f"HRound {ckn(kn)} {man} {cm.coq_bool(ab)} {cm.coq_bool(ba)}",
+                  dict(rep, call="from_dict(to_dict())", json=as_json, eq_ab=ab, eq_ba=ba, raised=err),
+                  ("conf-round", kn["context_name"], as_json, kinds))
+        if not (ab and ba and same_tasks):
+            fail(idx, "C19/roundtrip/not-equal",
+                 "manager differs after to_dict/from_dict (confusable values " + ", ".join(kinds) + ")")
+
+    # every kind of family at least once per run, then random grids
+    for kind in sorted(set(STR_KINDS + INT_KINDS + ["mixed"])):
+        for _ in range(ctx.scale(2, 12)):
+            pool = conf_pool(rng, kind, maxlen)
+            n = min(len(pool), rng.randint(2, 5))
+            spec, near = {rng.choice(IDENTS): pool[:n]}, {}
+            near[list(spec)[0]] = pool[n:]
+            if rng.random() < 0.6:
+                k2 = rng.choice([k for k in IDENTS if k not in spec])
+                spec[k2] = rng.sample(rng.choice([INTS, IDENTS]), rng.randint(1, 4))
+            confusable_manager(spec, near, (kind,))
+    for _ in range(ctx.scale(70, 1500)):
+        confusable_manager(*conf_spec(rng, ctx.scale(40, 160), maxlen))
+
+    # ---- SiteBatch.search on CONFUSABLE site ids (all integers or all texts, no duplicates): every site is
+    #      searched and must be in the batch returned, in that batch only; members of the family that are not
+    #      sites are in no batch
+    for _ in range(ctx.scale(60, 800)):
+        text = rng.random() < 0.6
+        pools = [conf_pool(rng, rng.choice(STR_KINDS if text else INT_KINDS), maxlen)
+                 for _f in range(rng.randint(1, 3))]
+        if not text:             # numpy.array of Python integers: 64-bit site ids
+            pools = [[v for v in p if -2 ** 63 <= v < 2 ** 63] for p in pools]
+        members = []
+        for p in pools:
+            members += [v for v in p if v not in members]
+        if len(members) < 2:
+            continue
+        n = rng.randint(2, len(members))
+        sites, outside = members[:n], members[n:]
+        znum = {s: 1000 + j for j, s in enumerate(members)}       # the model works on distinct numbers
+        nums = [znum[s] for s in sites]
+        k = rng.randint(1, n)
+        cname, cont = container_rep(rng, sites, ["list", "list", "tuple", "ndarray_object" if text else "list"])
+        rep = {"call": "SiteBatch(siteids, nbatch).search(site)", "sites": sites, "container": cname, "nbatch": k}
+        try:
+            sb = hyruns.SiteBatch(cont, k)
+            batches = [[pyval(x) for x in sb[i]] for i in range(k)]
+        except Exception as e:  # noqa
+            idx = add(f"HSearch {cm.coq_zlist(nums)} {cm.coq_z(k)} {cm.coq_z(nums[0])} None",
+                      dict(rep, raised=f"{type(e).__name__}: {e}"[:200]), ("conf-sb", "raised"))
+            fail(idx, "C19/search/wrong-batch", f"SiteBatch of {n} distinct sites raised {type(e).__name__}")
+            continue
+        flat = [x for b in batches for x in b]
+        if len(flat) != n or any(not same_value(a, b) for a, b in zip(flat, sites)) or \
+                max(map(len, batches)) - min(map(len, batches)) > 1:
+            idx = add(f"HSearch {cm.coq_zlist(nums)} {cm.coq_z(k)} {cm.coq_z(nums[0])} None",
+                      dict(rep, impl_batches=str(batches)[:600]), ("conf-sb", "batches"))
+            fail(idx, "C19/search/wrong-batch",
+                 f"the batches of SiteBatch({cname} of {n} distinct sites, {k}) are not the sites in order in "
+                 "batches of even size")
+            continue
+        for s in sites + outside[:3]:
+            try:
+                out = sb.search(s)
+                out = None if out is None else int(out)
+                err = None
+            except Exception as e:  # noqa
+                out, err = "raised", f"{type(e).__name__}: {e}"[:200]
+            idx = add(f"HSearch {cm.coq_zlist(nums)} {cm.coq_z(k)} {cm.coq_z(znum[s])} "
+                      f"{cm.coq_option(None if out == 'raised' else out, cm.coq_z)}",
+                      dict(rep, site=s, impl=out, raised=err),
+                      ("conf-sb", text, out is None, min(n, 4)))
+            holds = [i for i, b in enumerate(batches) if any(same_value(s, x) for x in b)]
+            if out == "raised":
+                fail(idx, "C19/search/wrong-batch", f"search({s!r}) raised")
+            elif holds:
+                if out not in holds:
+                    fail(idx, "C19/search/wrong-batch",
+                         f"search({s!r}) -> {out}, the site is in batch {holds[0]} (sites {sites}, {k} batches)")
+            elif out is not None:
+                fail(idx, "C19/search/phantom", f"search({s!r}) of a text / number that is not a site -> {out}")
 
 
     # =========================================================================================
@@ -715,6 +1056,15 @@ def run(ctx):
                 # (re)build the product on this manager
                 spec0 = derive_spec(rng, spec_prev, maxprod)
                 lk = [k for k, v in spec0.items() if isinstance(v, list)]
+                if lk and rng.random() < 0.25:               # the values of one option are confusable
+                    kc = rng.choice(lk)
+                    _kind, fam, _rest = conf_family(rng, STR_KINDS if rng.random() < 0.7 else ["sign", "digits_int"])
+                    nprod = 1
+                    for k9, v9 in spec0.items():
+                        nprod *= len(v9) if isinstance(v9, list) and k9 != kc else 1
+                    fam = fam[:max(1, maxprod // nprod)]
+                    if len(fam) >= 2:
+                        spec0[kc] = fam
                 if len(lk) >= 2 and rng.random() < 0.2:      # two options with the same values
                     k1, k2 = rng.sample(lk, 2)
                     if len(spec0[k1]) <= len(spec0[k2]):
